@@ -1,5 +1,6 @@
 import Driver.Reader
 import Driver.Flow
+import Driver.InfoModel
 open Driver Vflow
 
 /-- driver state: one model template cache per protocol, reset by `new` -/
@@ -20,6 +21,7 @@ def handle (st : DState) (line : String) : DState × String :=
   | ["nf9", a, d] =>
     let (res, c') := V9.decode st.nf9 (unhexArg a) (unhexArg d)
     ({ st with nf9 := c' }, showResult res)
+  | ["elem", p, i] => (st, elemLine p i)
   | _ => (st, "bad-op")
 
 partial def loop (h : IO.FS.Stream) (out : IO.FS.Stream) (st : DState) : IO Unit := do
